@@ -6,7 +6,7 @@ PROP = "C01"
 
 def kw(rng, i):
     return {"max_requests": None, "queue_size": rng.choice([None, 1, 2, 10]), "policy": rng.choice(["fifo", "random", "lifo"]),
-            "crashes": False}
+            "crashes": False, "worker": rng.choice(["asyncio", "trio"])}
 
 
 def run(ctx):
